@@ -442,6 +442,30 @@ Definition is_mixed_pem (d : bytes) : bool :=
   | _, _ => false
   end.
 
+(* ================= what is assumed of the UUID sniffer ================= *)
+(* IsUUID = uuid.Parse(strings.TrimSpace(s)) succeeds.  The sniffer stays an oracle; the routes only
+   need a NECESSARY condition, read off google/uuid v1.6.0 Parse (accepted lengths 32, 36, 38, 45;
+   length 45 must start with "urn:uuid:" in any case; the others have hex digits at offsets 1..7)
+   and strings.TrimSpace (removes ASCII white space and UTF-8 encoded Unicode white space, i.e.
+   bytes >= 0x80, from both ends): the harness checks it against the real sniffer on every case. *)
+Definition is_hex (c : N) : bool :=
+  ((48 <=? c) && (c <=? 57)) || ((97 <=? c) && (c <=? 102)) || ((65 <=? c) && (c <=? 70)).
+Definition solid (c : N) : bool := (c <? 128) && negb (is_ascii_space c).
+Definition count_solid (l : bytes) : nat := length (filter solid l).
+Definition hex7 (d : bytes) : bool :=
+  match d with
+  | _ :: rest => Nat.leb 7 (length rest) && forallb is_hex (firstn 7 rest)
+  | [] => false
+  end.
+Definition uuid_possible (data : bytes) : bool :=
+  Nat.leb (count_solid data) 45 &&
+  match data with
+  | c0 :: _ => negb (solid c0) || (c0 =? 117) || (c0 =? 85) || hex7 data
+  | [] => false
+  end.
+Definition uuid_oracle_ok (sniff_other : bytes -> bytes -> bool) : Prop :=
+  forall data, sniff_other (bs "IsUUID") data = true -> uuid_possible data = true.
+
 (* ================= well-formed objects of each kind ================= *)
 (* the children of the outer SEQUENCE; the element after the first one; the content of the first one *)
 Definition seq_inner (d : bytes) : option bytes :=
@@ -468,11 +492,14 @@ Definition side_cond (k : nat) (d : bytes) : bool :=
 Definition not_text (d : bytes) : bool := existsb (fun c => cls c =? cX) d.
 Definition starts_seq (d : bytes) : bool := match d with 48 :: _ => true | _ => false end.
 
-(* [d] is exactly one DER value, a SEQUENCE, and (kinds 1..6) the value of kind [k] *)
+(* [d] is exactly one DER value and (kinds 1..6) is accepted by kind [k]'s struct; that it then
+   starts with the SEQUENCE tag and contains a non-base64 byte is a lemma (key_shape); for a
+   certificate, whose structure is the x509 oracle's business, both are asked for, and that one
+   of the bytes at offsets 1..7 is no hex digit (offset 1 is 0x81..0x83 in every real certificate) *)
 Definition der_of_kind (k : nat) (d : bytes) : bool :=
-  is_asn1 d && starts_seq d && not_text d && bytes_ok d &&
+  is_asn1 d && bytes_ok d &&
   match k with
-  | O => true
+  | O => starts_seq d && not_text d && negb (hex7 d)
   | _ => match schema_of k with Some s => accepts s d && side_cond k d | None => false end
   end.
 
